@@ -145,8 +145,8 @@ def _run_unit(args):
                         res["violations"].append(
                             {"sig": sg, "label": label, "detail": detail, "inputs": H.jsonable(inputs), "confirmed": True, "via": "path-validation"}
                         )
-                if len(res["samples"]) < 3:
-                    res["samples"].append({"inputs": H.jsonable(inputs), "observed": H.jsonable(real_obs)[:6]})
+                if n in (1, 7, 60, 400):
+                    res["samples"].append({"path": n, "inputs": H.jsonable(inputs), "observed": H.jsonable(real_obs)[:6]})
 
         try:
             eng.explore(fn, on_path)
@@ -271,8 +271,10 @@ def report(mod, prop, tier, seed, units, results, wall, extra):
             v["unit"] = r["unit"]
             viol.setdefault(v["sig"], v)
         for s_ in r["samples"]:
-            if len(samples) < 8:
-                samples.append({"unit": r["unit"], **s_})
+            samples.append({"unit": r["unit"], **s_})
+    # show the deepest explored cases rather than the first trivial ones
+    samples.sort(key=lambda x: (-x.get("path", 0), -len(json.dumps(x, default=repr))))
+    samples = samples[:8]
     by_name = {u["name"]: u for u in units}
     new = []
     known_hit = []
